@@ -314,7 +314,7 @@ harnesses! {
     fn c02_t_hash_kmer_iupac_k2 [67] { hash_kmer!(Iupac, 2, usize, 32, 2) }
     fn c02_q_hash_kmer_dna_k3_u64 [67] { hash_kmer!(Dna, 3, u64, 64, 2) }
     fn c02_q_hash_kmer_dna_k3_u128 [131] { hash_kmer!(Dna, 3, u128, 64, 2) }
-    fn c02_q_hash_kmer_dna_k33_u128 [131] { hash_kmer!(Dna, 33, u128, 96, 3) }
+    fn c02_t_hash_kmer_dna_k33_u128 [131] { hash_kmer!(Dna, 33, u128, 96, 3) }
     fn c02_t_hash_kmer_dna_k64_u128 [131] { hash_kmer!(Dna, 64, u128, 192, 6) }
     fn c02_t_hash_kmer_dna_k32 [67] { hash_kmer!(Dna, 32, usize, 96, 3) }
 
